@@ -63,8 +63,9 @@ type Case struct {
 	// model step budget (0 = default)
 	Budget int64 `json:"budget,omitempty"`
 	// hostile: the call (Call) of hostileList()[..] with pattern Pat on its subject of size Size
-	Call string `json:"call,omitempty"`
-	Size int    `json:"size,omitempty"`
+	Call    string `json:"call,omitempty"`
+	Size    int    `json:"size,omitempty"`
+	Variant int    `json:"variant,omitempty"` // deep-captures: which shape
 
 	compact *Case
 }
@@ -558,6 +559,50 @@ func checkGmatch(c *fw.Ctx, e *env, cs *Case, inf *lpat.Info, sv, pv lua.LValue)
 			if len(got) > len(cs.Sub)+2 {
 				r.mark(file(c, cs, inf, dMismatch, fmt.Sprintf("the gmatch iterator yielded more than len+2 = %d times", len(cs.Sub)+2)))
 				return
+			}
+		}
+		if o.GoPanic == nil && o.Err == nil {
+			// an exhausted iterator keeps answering nil (lstrlib's gmatch_aux finds no further match)
+			for k := 0; k < 2; k++ {
+				vs, o2 := gl.Call(e.L, res[0], st, ctl)
+				if o2.GoPanic != nil || o2.Err != nil || (len(vs) > 0 && vs[0] != lua.LNil) {
+					o = o2
+					if o2.GoPanic == nil && o2.Err == nil {
+						r.mark(file(c, cs, inf, dMismatch, "the exhausted gmatch iterator, called again, returned "+lvStr(vs)))
+						return
+					}
+					if canaries(c, e, cs, inf, o, &r) {
+						return
+					}
+					r.mark(file(c, cs, inf, dMismatch, "the exhausted gmatch iterator, called again, raised: "+fw.Short(o2.Err.Error(), 160)))
+					return
+				}
+			}
+			// the iterator is a closure: called with no arguments at all (local it = s:gmatch(p); it())
+			// it walks the same matches
+			res2, o3 := gl.Call(e.L, e.gmatch, sv, pv)
+			if o3.GoPanic == nil && o3.Err == nil && len(res2) > 0 && res2[0].Type() == lua.LTFunction {
+				for k := 0; k <= len(got); k++ {
+					vs, o4 := gl.Call(e.L, res2[0])
+					if o4.GoPanic != nil || o4.Err != nil {
+						o = o4
+						if canaries(c, e, cs, inf, o, &r) {
+							return
+						}
+						r.mark(file(c, cs, inf, dMismatch, "the gmatch iterator called without arguments raised: "+fw.Short(o4.Err.Error(), 160)))
+						return
+					}
+					end := len(vs) == 0 || vs[0] == lua.LNil
+					if k < len(got) && (end || lvStr(vs) != lvStr(got[k])) || k == len(got) && !end {
+						r.mark(file(c, cs, inf, dMismatch, fmt.Sprintf("the gmatch iterator called without arguments yields %s at step %d, with the values of the generic for it yields %s", lvStr(vs), k+1, func() string {
+							if k < len(got) {
+								return lvStr(got[k])
+							}
+							return "nil"
+						}())))
+						return
+					}
+				}
 			}
 		}
 	}
